@@ -255,7 +255,13 @@ func (fr *Frame) modContract(fc *FuncContract, c *ssa.CallCommon, ms *modSet, bi
 			}
 			ms.all = true
 		case *ast.CallExpr:
-			// elems(x), contents(x)
+			// elems(x), contents(x), boxes(T)
+			if id, ok := e.Fun.(*ast.Ident); ok && len(e.Args) == 1 && id.Name == "boxes" {
+				if t, err := resolveTypeExpr(e.Args[0], fc.Scope, w.P); err == nil {
+					ms.whole(heapBoxName(w.sortOf(t)))
+					continue
+				}
+			}
 			if id, ok := e.Fun.(*ast.Ident); ok && len(e.Args) == 1 {
 				if aid, ok := e.Args[0].(*ast.Ident); ok {
 					if i, ok := paramIdx[aid.Name]; ok && i < len(args) {
